@@ -1055,9 +1055,9 @@ pub fn gen(a: &Args) -> String {
     let mut out = Out::default();
     out.buf.push_str(RULE);
     out.buf.push('\n');
-    let n_a = if a.thorough { 40_000 } else { 2_500 };
-    let n_w = if a.thorough { 12_000 } else { 1_200 };
-    let n_s = if a.thorough { 6_000 } else { 600 };
+    let n_a = if a.thorough { 40_000 } else { 8_000 };
+    let n_w = if a.thorough { 12_000 } else { 3_000 };
+    let n_s = if a.thorough { 6_000 } else { 1_500 };
     let mut id = 0u64;
     for _ in 0..n_a {
         let mut cr = r.fork();
